@@ -185,6 +185,10 @@ func runIoCase(c *ioCase) (impl, pred string) {
 		if _, err := cp.Dispense("no-such-plugin"); err == nil && pred == "ok" {
 			pred = "FAIL:unknown-plugin-name-dispensed"
 		}
+		// a name the PLUGIN serves but this host's plugin set does not contain: an error as well (never a panic)
+		if _, err := cp.Dispense("plugin-only"); err == nil && pred == "ok" {
+			pred = "FAIL:name-unknown-to-the-host-dispensed"
+		}
 		raw, err := cp.Dispense("kit")
 		if err != nil {
 			useErr = err
@@ -218,6 +222,27 @@ func runIoCase(c *ioCase) (impl, pred string) {
 	case pp != nil:
 		return "panic", "FAIL:first-use-panicked"
 	case useErr != nil:
+		// the error of the first use stays an error: asking the same client again (and using whatever it returns) and
+		// killing it neither succeeds nor panics
+		_, h2, p2 := withTimeout(15*time.Second, func() error {
+			cp, err := client.Client()
+			if err == nil {
+				if cp == nil {
+					return fmt.Errorf("nil client without an error")
+				}
+				if perr := cp.Ping(); perr == nil && hostWantsTLS != pluginPlaintext == false {
+					return nil
+				}
+			}
+			client.Kill()
+			return nil
+		})
+		if pred == "ok" && h2 {
+			pred = "FAIL:second-use-hung"
+		}
+		if pred == "ok" && p2 != nil {
+			pred = "FAIL:second-use-panicked"
+		}
 		return "firstuse", pred
 	}
 	if hostWantsTLS && pluginPlaintext {
